@@ -109,8 +109,16 @@ class RecHeader:
 class RecBlock:
     """FilterbankBlock / TimeSeries recorder"""
 
-    def __init__(self, data, header, dm=0):
+    def __init__(self, data, header, dm=0, *a, **k):
         self.data, self.header, self.dm = data, header, dm
+        # the real containers (TimeSeries._check_input / FilterbankBlock) reject a header whose
+        # nsamples differs from the data length
+        n = getattr(data, "length", None) if getattr(data, "ndim", 1) == 1 else getattr(data, "cols", None)
+        hn = getattr(header, "nsamples", None)
+        if n is not None and hn is not None:
+            from .core import SBool, term
+            if SBool(term(hn) != n):
+                raise ValueError("Input data length does not match header nsamples (symbolic)")
 
 
 def passthrough_track(it, **kw):
